@@ -4611,4 +4611,26 @@ _2 = a[1]
             "#,
         ));
     }
+
+    #[test]
+    fn test_empty_else_branch_still_reaches_code_after_if() {
+        let mut ws = VirtualWorkspace::new();
+        let file_id = ws.def(
+            r#"
+            ---@type string?
+            local value
+
+            if value then
+                value = 1
+            else
+            end
+
+            local after = value
+            "#,
+        );
+
+        // the false branch (`value` is nil) falls through the empty `else` and reaches `after`
+        let ty = last_name_expr_type(&ws, file_id, "value");
+        assert_eq!(ws.humanize_type(ty), "1?");
+    }
 }
